@@ -152,6 +152,9 @@ def flatten_segs(I: Interp, segs, tree=None, depth=0, max_depth=12):
                 out.extend(flatten_segs(I, inner, tree, depth + 1, max_depth))
             elif t[0] == "binop" and t[1] == "Add":
                 out.extend(flatten_segs(I, [("s", t[2]), ("s", t[3])], tree, depth, max_depth))
+            elif t[0] == "cond" and depth < max_depth:
+                # a choice between lists: its elements under that condition
+                out.append(("if", t[1], flatten_segs(I, [("s", t[2])], tree, depth + 1, max_depth), flatten_segs(I, [("s", t[3])], tree, depth + 1, max_depth)))
             else:
                 out.append(s)
         elif s[0] == "loop":
